@@ -515,6 +515,49 @@ class Ctx:
                 return name, req, first, got
         return None
 
+    @staticmethod
+    def environment_names_read():
+        """names of the environment variables the library's source reads (os.environ.get / [] / in, os.getenv), found in
+        its syntax trees; a name given through a module-level constant is resolved; returns (names, unresolved count)"""
+        import ast
+        import glob
+        names, unresolved = set(), 0
+        for fn in sorted(glob.glob(os.path.join(REPO, 'src', 'debian_inspector', '**', '*.py'), recursive=True)):
+            try:
+                tree = ast.parse(open(fn, encoding='utf-8').read())
+            except (SyntaxError, OSError, UnicodeDecodeError):
+                continue
+            consts = {}
+            for node in ast.walk(tree):
+                if isinstance(node, ast.Assign) and isinstance(node.value, ast.Constant) and isinstance(node.value.value, str):
+                    for t in node.targets:
+                        if isinstance(t, ast.Name):
+                            consts[t.id] = node.value.value
+
+            def is_environ(e):
+                return (isinstance(e, ast.Attribute) and e.attr in ('environ', 'environb')) or (isinstance(e, ast.Name) and e.id in ('environ', 'environb'))
+
+            def take(arg):
+                nonlocal unresolved
+                if isinstance(arg, ast.Constant) and isinstance(arg.value, (str, bytes)):
+                    names.add(arg.value if isinstance(arg.value, str) else arg.value.decode('latin-1'))
+                elif isinstance(arg, ast.Name) and arg.id in consts:
+                    names.add(consts[arg.id])
+                else:
+                    unresolved += 1
+            for node in ast.walk(tree):
+                if isinstance(node, ast.Call):
+                    f = node.func
+                    if isinstance(f, ast.Attribute) and f.attr in ('get', 'pop', 'setdefault', '__getitem__', '__contains__') and is_environ(f.value) and node.args:
+                        take(node.args[0])
+                    elif ((isinstance(f, ast.Attribute) and f.attr in ('getenv', 'getenvb')) or (isinstance(f, ast.Name) and f.id in ('getenv', 'getenvb'))) and node.args:
+                        take(node.args[0])
+                elif isinstance(node, ast.Subscript) and is_environ(node.value):
+                    take(node.slice)
+                elif isinstance(node, ast.Compare) and any(isinstance(o, (ast.In, ast.NotIn)) for o in node.ops) and any(is_environ(c) for c in node.comparators):
+                    take(node.left)
+        return sorted(names), unresolved
+
     def other_environments(self):
         """re-evaluate the remembered requests in fresh interpreters started under other environments: another hash
         seed (set and dict-of-set ordering), -O (assert statements removed), -W error (warnings raised as exceptions), the C locale without UTF-8 mode (another
@@ -552,6 +595,17 @@ class Ctx:
                     ('four threads asking at once', {'VERIF_PROBE_THREADS': '4'}, [], None),
                     ('LC_ALL=C without UTF-8 mode', {'LC_ALL': 'C', 'LANG': 'C', 'PYTHONUTF8': '0', 'PYTHONCOERCECLOCALE': '0', 'PYTHONIOENCODING': ''}, [], None),
                     ('working directory / and TZ=Pacific/Kiritimati', {'TZ': 'Pacific/Kiritimati'}, [], '/')]
+        # every environment variable the source reads, set to values an unrelated program or build may have left there
+        # (the library documents no dependence on its environment)
+        env_names, unresolved = self.environment_names_read()
+        st['environment_variables_read_by_the_source'] = env_names
+        if unresolved:
+            st['environment_reads_with_a_computed_name'] = unresolved
+        for n in env_names:
+            if n.startswith(('VERIF_', 'PYTHON')) or n in ('LC_ALL', 'LANG', 'TZ'):
+                continue
+            for val in ('0', 'amd64', 'false'):
+                variants.append(('%s=%s' % (n, val), {n: val}, [], None))
         st['variants'] = [v[0] for v in variants]
         probe = os.path.join(os.path.dirname(os.path.abspath(__file__)), 'env_probe.py')
         for vname, env, flags, cwd in variants:
